@@ -35,13 +35,14 @@ func init() {
 }
 
 type schemaCase struct {
-	ID       string          `json:"id"`
-	Focus    string          `json:"focus"`
-	AST      json.RawMessage `json:"ast"`
-	Contract *contract       `json:"contract"`
-	Befores  []beforeCase    `json:"befores"`
-	Reps     int             `json:"reps"`
-	Ev       bool            `json:"ev"` // record events for direction T (only a sample of the cases is traced)
+	ID       string            `json:"id"`
+	Focus    string            `json:"focus"`
+	AST      json.RawMessage   `json:"ast"`
+	Contract *contract         `json:"contract"`
+	Befores  []beforeCase      `json:"befores"`
+	Reps     int               `json:"reps"`
+	Files    map[string]string `json:"files"` // schema-determ: the sources as text (instead of an AST)
+	Ev       bool              `json:"ev"`    // record events for direction T (only a sample of the cases is traced)
 }
 
 type beforeCase struct {
@@ -253,6 +254,7 @@ type fileDigest struct {
 	Path  string `json:"path"`
 	Desc  string `json:"desc"`
 	Print string `json:"print"`
+	text  string // the printed .proto text itself
 }
 
 func digestFiles(files linker.Files) ([]fileDigest, error) {
@@ -269,7 +271,7 @@ func digestFiles(files linker.Files) ([]fileDigest, error) {
 		}
 		h1 := sha256.Sum256(bb)
 		h2 := sha256.Sum256([]byte(txt))
-		out = append(out, fileDigest{Path: f.Path(), Desc: hex.EncodeToString(h1[:8]), Print: hex.EncodeToString(h2[:8])})
+		out = append(out, fileDigest{Path: f.Path(), Desc: hex.EncodeToString(h1[:8]), Print: hex.EncodeToString(h2[:8]), text: txt})
 	}
 	return out, nil
 }
@@ -339,13 +341,27 @@ func schemaDetermDriver(raw json.RawMessage) *Out {
 	if err := json.Unmarshal(raw, &c); err != nil {
 		return &Out{Skip: "bad case: " + err.Error()}
 	}
-	b, err := parseAST(c.AST)
-	if err != nil {
-		return &Out{Skip: "bad ast: " + err.Error()}
+	var sources map[string]string
+	var pkgs []string
+	if len(c.Files) > 0 {
+		sources = c.Files
+		seen := map[string]bool{}
+		for f := range sources {
+			if p := pkgOfFile(f); !seen[p] {
+				seen[p] = true
+				pkgs = append(pkgs, p)
+			}
+		}
+		sort.Strings(pkgs)
+	} else {
+		b, err := parseAST(c.AST)
+		if err != nil {
+			return &Out{Skip: "bad ast: " + err.Error()}
+		}
+		sources = astToJ5s(b)
+		pkgs = bundlePackages(b)
 	}
 	out := &Out{Key: c.ID}
-	sources := astToJ5s(b)
-	pkgs := bundlePackages(b)
 	where := whereOf(c.Focus)
 	ref := map[string][]fileDigest{}
 	var rerr error
@@ -378,12 +394,41 @@ func schemaDetermDriver(raw json.RawMessage) *Out {
 	for f := range sources {
 		filesOf[pkgOfFile(f)] = append(filesOf[pkgOfFile(f)], f)
 	}
-	for r := 0; r < reps; r++ {
+	// the checkout of a user who commits the generated files: every generated .j5s.proto of the reference run sits next
+	// to its source, and the file source lists it (in any position) like everything else below the package directory
+	committed := map[string]string{}
+	for k, v := range sources {
+		committed[k] = v
+	}
+	for _, ds := range ref {
+		for _, d := range ds {
+			if strings.HasSuffix(d.Path, ".j5s.proto") {
+				committed[d.Path] = d.text
+			}
+		}
+	}
+	for r := 0; r < reps+2; r++ {
 		src := newMemFiles(sources)
 		src.pkgOrder = permute(pkgs, r)
 		src.fileOrd = map[string][]string{}
 		for p, fs := range filesOf {
 			src.fileOrd[pkgDir(p)] = permute(fs, r+1)
+		}
+		where := where
+		if r >= reps {
+			src = newMemFiles(committed)
+			src.pkgOrder = permute(pkgs, r)
+			src.fileOrd = map[string][]string{}
+			for _, p := range pkgs {
+				var fs []string
+				for f := range committed {
+					if strings.HasPrefix(f, pkgDir(p)+"/") {
+						fs = append(fs, f)
+					}
+				}
+				src.fileOrd[pkgDir(p)] = permute(fs, r+1)
+			}
+			where += "|generated-files-committed"
 		}
 		order := permute(pkgs, r+2)
 		ps, err := protobuild.NewPackageSet(noDeps{}, src)
